@@ -38,11 +38,15 @@ def cfgChinese : SwiftCfg :=
 ⟨"chinese", Chinese.re_DatePeriodParser_next_prefix_regex, Chinese.re_DatePeriodParser_previous_prefix_regex, Chinese.re_DatePeriodParser_this_prefix_regex,
     Chinese.DatePeriodParser_get_swift_day_or_month, Chinese.DatePeriodParser_get_swift_year⟩
 
-/-- the instances are there: the theorems below are not vacuous (German `previous_prefix_regex` is the exception: it is
-`.^`, which nothing matches — see `german_last_words_not_previous`) -/
+/-- the instances are there: the theorems below are not vacuous.  The German / Italian previous-prefix families depend
+on which variant the tree follows (regenerated flag `pastPrefixFollowsPrevious`): before the repair the German regex was
+`.^` (no instance at all) and the Italian one only `scors*` — see `Props/C08ConfigLast.lean`. -/
 theorem words_nonempty :
-    (cfgs.map fun c => ((wordsOf T c.next).length, (wordsOf T c.prev).length, (wordsOf T c.this).length)) =
-      [(6, 4, 2), (18, 17, 5), (9, 12, 12), (81, 20, 4), (14, 0, 17), (17, 10, 4)] := by decide +kernel
+    (cfgs.map fun c => ((wordsOf T c.next).length, (wordsOf T c.this).length)) =
+      [(6, 2), (18, 5), (9, 12), (81, 4), (14, 17), (17, 4)] ∧
+    (cfgs.map fun c => (wordsOf T c.prev).length) =
+      [4, 17, 12, if Italian.pastPrefixFollowsPrevious then 66 else 20,
+       if German.pastPrefixFollowsPrevious then 18 else 0, 10] := by decide +kernel
 
 /-- every instance of the culture's next-prefix regex: `get_swift_day_or_month` = +1 -/
 theorem next_words_swift_plus_one :
